@@ -486,5 +486,69 @@ func (e *Engine) determinism(prop string) []*Oblig {
 	o2 := structOblig("deterministic/decode-display-cone", "deterministic",
 		"no function reachable from framing, decoding and display starts a goroutine, selects, iterates over a map, reads the clock or a random source; channel operations occur only in the stream handler and the byte channel",
 		[]string{prop}, nondet)
-	return []*Oblig{o1, o2}
+	// Repeated display gives identical text: the display functions write two fields of a message
+	// (Readable, ErrorMessage).  If a value stored into one of them never depends on the previous
+	// content of that same field, then - the functions being deterministic and leaving every other
+	// field alone (frame clauses) - displaying again recomputes the same values.
+	var selfdep []string
+	for _, fn := range cone {
+		for _, b := range fn.Blocks {
+			for _, ins := range b.Instrs {
+				st, ok := ins.(*ssa.Store)
+				if !ok {
+					continue
+				}
+				fa, ok := st.Addr.(*ssa.FieldAddr)
+				if !ok {
+					continue
+				}
+				named, ok := derefType(fa.X.Type()).(*types.Named)
+				if !ok || named.Obj().Pkg() == nil || named.Obj().Pkg().Path() != e.modPath+"/rtcm/handler" || named.Obj().Name() != "Message" {
+					continue
+				}
+				if _, fresh := fa.X.(*ssa.Alloc); fresh {
+					continue
+				}
+				fname := named.Underlying().(*types.Struct).Field(fa.Field).Name()
+				if dependsOnFieldLoad(st.Val, named, fa.Field, map[ssa.Value]bool{}) {
+					selfdep = append(selfdep, fmt.Sprintf("%s: %s stores into Message.%s a value computed from the previous Message.%s", e.pos(ins), fn.Name(), fname, fname))
+				}
+			}
+		}
+	}
+	o3 := structOblig("idempotent-display/decode-display-cone", "deterministic",
+		"no function reachable from framing, decoding and display stores into a field of a Message a value that depends on the previous content of that field (repeated display recomputes the same values)",
+		[]string{prop}, selfdep)
+	return []*Oblig{o1, o2, o3}
+}
+
+// dependsOnFieldLoad: does v depend (through SSA data flow within the function) on a load of
+// field idx of an object of the given named struct type?
+func dependsOnFieldLoad(v ssa.Value, named *types.Named, idx int, seen map[ssa.Value]bool) bool {
+	if v == nil || seen[v] {
+		return false
+	}
+	seen[v] = true
+	if u, ok := v.(*ssa.UnOp); ok && u.Op.String() == "*" {
+		if fa, ok := u.X.(*ssa.FieldAddr); ok && fa.Field == idx {
+			if n, ok := derefType(fa.X.Type()).(*types.Named); ok && n == named {
+				return true
+			}
+		}
+	}
+	if f, ok := v.(*ssa.Field); ok && f.Field == idx {
+		if n, ok := f.X.Type().(*types.Named); ok && n == named {
+			return true
+		}
+	}
+	ins, ok := v.(ssa.Instruction)
+	if !ok {
+		return false
+	}
+	for _, op := range ins.Operands(nil) {
+		if op != nil && *op != nil && dependsOnFieldLoad(*op, named, idx, seen) {
+			return true
+		}
+	}
+	return false
 }
